@@ -63,7 +63,7 @@ def _selector_nodes(ev, par, regime):
 
 
 def r1_coef_identities(ctx):
-    from .c01_coef import run_su_coef, REGIMES
+    from .c01_coef import run_su_coef, REGIMES, RegimeRaises
     fn = ctx.src.func(UTIL, "get_su_coef")
     sets, where = {}, {}
     sel_all = {}
@@ -74,6 +74,10 @@ def r1_coef_identities(ctx):
                 c, par, ev = run_su_coef(ctx, fn, regime, m_none)
                 for x in COEFS:
                     need(c[x], f"{tag} coefficient {x}")
+            except RegimeRaises as e:
+                ctx.fail(f"{tag}: get_su_coef returns coefficients for a mode of this regime", e.node,
+                         "the evaluation for the generic mode of this regime ends in a `raise` (the mode is selected by no regime mask, or by two)")
+                continue
             except Unsupported as e:
                 ctx.error(f"{tag}: extraction", fn, str(e))
                 continue
@@ -175,7 +179,7 @@ def r1b_regime_selectors(ctx):
     matrix (same mathematical problem) would select different formulas; and the near-zero-eigenvalue override of the complex path
     must not depend on the step (its accumulated error is |lambda| * t, independent of h).  Decided on values: get_su_coef is evaluated for the
     generic mode of every regime with b = 2 beta m, k = wo2 m; both operands of every mode-selecting comparison must be free of m."""
-    from .c01_coef import run_su_coef, run_complex_coefs, REGIMES, mass_invariant
+    from .c01_coef import run_su_coef, run_complex_coefs, REGIMES, mass_invariant, RegimeRaises
     from .c01_ev import Sem01, unsym
     fn = ctx.src.func(UTIL, "get_su_coef")
     seen = {}      # id(node) -> [node, set of raw symbols the operands depend on]
@@ -183,6 +187,8 @@ def r1b_regime_selectors(ctx):
         for rb_given in (True, False):
             try:
                 c, par, ev = run_su_coef(ctx, fn, regime, False, rb_given)
+            except RegimeRaises as e:
+                ev = e.ev          # reported by C01-R1; the comparisons met before the raise are still examined
             except Unsupported as e:
                 ctx.error(f"get_su_coef ({regime}): selectors", fn, str(e))
                 continue
@@ -250,16 +256,18 @@ def r1b_regime_selectors(ctx):
         ctx.error("_get_complex_su_coefs: Fe of a near-zero eigenvalue", fn2, repr(rbv.get("Fe")))
     # get_su_eig rigid-body constants equal the undamped rb coefficient set with m = 1:  G = h, A = h^2/3, Ap = h/2
     fn3 = ctx.src.func(SOLVEUNC, "SolveUnc.get_su_eig")
-    S = Sem01(ctx, fn3, env={"self.h": h}, truth={"h": True, "self.rbsize": True, "self.elsize": True}, nonnull={"h"})
+    H_ = F.sym("<step>")         # not the name of a plausible local: an unbound `h` must not be mistaken for self.h
+    S = Sem01(ctx, fn3, env={"self.h": H_}, truth={"<step>": True, "self.rbsize": True, "self.elsize": True}, nonnull={"<step>"})
     ret = S.ret()
     roots = [k for k, v in S.ev.env.items() if "." not in k and isinstance(v, F.Rat) and isinstance(ret, F.Rat) and v.equals(ret) and unsym(v) is None]
-    want = {"G": h, "A": h * h / 3, "Ap": h / 2}
+    want = {"G": H_, "A": H_ * H_ / 3, "Ap": H_ / 2}
     for nm, w in want.items():
         v = None
         for r in roots:
             v = S.ev.env.get(f"{r}.{nm}", v)
         ok = v is not None and not is_unknown(v) and isinstance(v, F.Rat) and v.equals(w)
-        ctx.check(ok, f"get_su_eig: pc.{nm} equals the undamped rigid-body coefficient for unit mass ({w})", fn3, None if ok else repr(v))
+        ctx.check(ok, f"get_su_eig: pc.{nm} equals the undamped rigid-body coefficient for unit mass ({str(w).replace('<step>', 'h')})", fn3,
+                  None if ok else repr(v))
 
 
 # ---------------------------------------------------------------------------
@@ -320,11 +328,13 @@ def _half(v):
             return "first", args[0]
         if len(args) == 2 and args[1].equals(2 * args[0]):
             return "second", args[0]
+        return "other", None
     if nm == "slice" and len(args) == 3 and args[2].equals(NONE_):
         if args[0].equals(NONE_) and not args[1].equals(NONE_):
             return "first", args[1]
         if not args[0].equals(NONE_) and (args[1].equals(NONE_) or args[1].equals(2 * args[0])):
             return "second", args[0]
+        return "other", None
     return None
 
 
@@ -346,8 +356,11 @@ def _state_layout(ctx, rel):
                 good = False
                 continue
             hr, hc = _half(u[1][0]), _half(u[1][1])
-            if hr is None or hc is None or not hr[1].equals(hc[1]) or (nval is not None and not hr[1].equals(nval)):
+            if hr is None or hc is None:
                 good = False
+                continue
+            if hr[0] == "other" or hc[0] == "other" or not hr[1].equals(hc[1]) or (nval is not None and not hr[1].equals(nval)):
+                blocks[("other", len(blocks))] = val          # a range / slice that is provably neither half of the state
                 continue
             nval = hr[1]
             blocks[(hr[0], hc[0])] = val
@@ -355,9 +368,9 @@ def _state_layout(ctx, rel):
             ctx.error(f"_build_A ({'diagonal' if unc else 'coupled'}): the stores into the state matrix were not lowered", fb, repr(S.cells(name) if name else ret)[:300])
             continue
         okv = lambda key, w: key in blocks and isinstance(blocks[key], F.Rat) and blocks[key].equals(w)
-        ok = okv(("second", "first"), 1) and okv(("first", "first"), -F.sym("b")) and okv(("first", "second"), -F.sym("k")) and ("second", "second") not in blocks
+        ok = okv(("second", "first"), 1) and okv(("first", "first"), -F.sym("b")) and okv(("first", "second"), -F.sym("k")) and len(blocks) == 3
         ctx.check(ok, f"_build_A ({'diagonal' if unc else 'coupled'}): state is [v; d] (rows :n are the velocity equations -b v - k d, rows n: are d' = v)", fb,
-                  None if ok else {f"{r}/{c}": repr(v)[:80] for (r, c), v in blocks.items()})
+                  None if ok else {f"{r}/{c}": repr(v_)[:80] for (r, c), v_ in blocks.items()})
 
 
 def r4_frame_typing(ctx):
@@ -428,13 +441,24 @@ def r4_frame_typing(ctx):
                 return (F.sym("d_work"), F.sym("v_work"), F.sym("a_work"))
             return NotImplemented
 
+        bsym = F.sym("b")
+
+        def mm_binop(node, a_, b_, ev):
+            # a matrix product in which the damping itself is an operand is kept apart from the elementwise product: a damping *vector* must be
+            # applied as a row / column scaling (u.T * b @ u), a damping *matrix* by two matrix products (u.T @ b @ u)
+            if isinstance(node.op, ast.MatMult) and isinstance(a_, F.Rat) and isinstance(b_, F.Rat) and (a_.equals(bsym) or b_.equals(bsym)):
+                return F.fn("mm", a_, b_)
+            return NotImplemented
+
         for bdim in (1, 2):
-            S1 = Sem(ctx, f_pre, call=call, erase_T=True, env={"m": (F.sym("M") if mcase == "given" else NONE), "b": F.sym("b"), "k": F.sym("k")},
+            S1 = Sem(ctx, f_pre, call=call, erase_T=True, env={"m": (F.sym("M") if mcase == "given" else NONE), "b": bsym, "k": F.sym("k")}, binop=mm_binop,
                      cond=is_none_oracle({"k.ndim==1": True, "m.ndim==1": True, "b.ndim==1": bdim == 1}))
             ret = S1.ret()
-            ok = isinstance(ret, tuple) and len(ret) == 3 and S1.same(ret[0], NONE) and S1.same(ret[2], F.sym("w")) and S1.same(ret[1], Usym * F.sym("b") * Usym) \
+            wantb = [Usym * bsym * Usym] if bdim == 1 else [F.fn("mm", Usym, bsym) * Usym, Usym * F.fn("mm", bsym, Usym)]
+            ok = isinstance(ret, tuple) and len(ret) == 3 and S1.same(ret[0], NONE) and S1.same(ret[2], F.sym("w")) and any(S1.same(ret[1], w_) for w_ in wantb) \
                 and S1.same(S1.env("self.phi"), Usym)
-            ctx.check(ok, f"_do_pre_eig (m {mcase}, b {bdim}-D): phi = eigenvectors of (k, m); returns m -> None, k -> eigenvalues, b -> phi.T b phi", f_pre,
+            ctx.check(ok, f"_do_pre_eig (m {mcase}, b {bdim}-D): phi = eigenvectors of (k, m); returns m -> None, k -> eigenvalues, b -> phi.T b phi "
+                          + ("(a damping vector scales the rows of phi)" if bdim == 1 else "(a damping matrix is multiplied from both sides)"), f_pre,
                       None if ok else repr(ret))
         attrs = {k: v for k, v in S1.ev.env.items() if k.startswith("self.") and not is_unknown(v)}
         env = dict(attrs)
@@ -499,6 +523,28 @@ def r4_frame_typing(ctx):
     S5 = Sem(ctx, f4, cond=is_none_oracle({"self.pre_eig": True}), env={"F0": F.sym("F0"), "d0": F.sym("d0"), "v0": F.sym("v0")})
     ok = S5.ev.raised is not None and not S5.calls("self._alloc_dva") and not S5.calls("self._init_dv")
     ctx.check(ok, "_init_dva_part (generator path): pre_eig is refused before any array is allocated", S5.ev.raised or f4)
+
+    def call6(node, ev):
+        dn = dotted(node.func) or ""
+        if dn == "self._set_initial_cond" and len(node.args) == 2:
+            return (ev.ev(node.args[0]), ev.ev(node.args[1]))
+        if dn == "self._alloc_dva":
+            return (F.sym("d_work"), F.sym("v_work"), F.sym("a_work"))
+        return NotImplemented
+    S6 = Sem(ctx, f4, cond=is_none_oracle({"self.pre_eig": False, "self.rfsize": False}), call=call6, env={"F0": F.sym("F0"), "d0": F.sym("d0"), "v0": F.sym("v0")})
+    c6 = S6.calls("self._init_dv")
+    tgt6 = [a.arg for a in ctx.src.func(O.BASE, "_BaseODE._init_dv").args.args][1:]
+    v6 = dict(zip(tgt6, c6[0][1])) if len(c6) == 1 else {}
+    v6.update(c6[0][2] if len(c6) == 1 else {})
+    from .c01_ev import unsym as _unsym
+    for k_ in ("d", "v"):        # a work array that is also filled in place is a buffer of the evaluator: what it was created from stands for it
+        n_ = _unsym(v6.get(k_)) if isinstance(v6.get(k_), F.Rat) else None
+        if n_ is not None and f"<init:{n_}>" in S6.ev.env:
+            v6[k_] = S6.ev.env[f"<init:{n_}>"]
+    ok = S6.ev.raised is None and len(S6.calls("self._alloc_dva")) == 1 and len(c6) == 1 and S6.same(v6.get("d"), F.sym("d_work")) and S6.same(v6.get("v"), F.sym("v_work")) \
+        and S6.same(v6.get("d0"), F.sym("d0")) and S6.same(v6.get("v0"), F.sym("v0")) and S6.same(v6.get("F0"), F.sym("F0"))
+    ctx.check(ok, "_init_dva_part (generator path, no pre_eig): the work arrays of _alloc_dva and the user's d0, v0, F0 reach _init_dv unchanged", c6[0][3] if c6 else f4,
+              None if ok else {k_: repr(x)[:80] for k_, x in v6.items()})
 
 
 # ---------------------------------------------------------------------------
@@ -887,6 +933,21 @@ def r9_solveexp2(ctx):
                       f"{('velocity' if r == 'v' else 'displacement')} half (state layout [v; d]: rows/columns :ksize are velocities)", init, None if ok else repr(got))
     ok = S0.same(S0.env("self.P"), F.sym("P")) and S0.same(S0.env("self.Q"), F.sym("Q"))
     ctx.check(ok, "SolveExp2.__init__: P and Q are stored under their own names", init)
+    # a system without dynamic equations (every mode statically solved: ksize = 0) has no state matrix: the exponential must not be requested
+    asked = []
+
+    def call1(node, ev):
+        d = dotted(node.func) or ""
+        if d.endswith("getEPQ") or d == "self._build_A":
+            asked.append(node)
+            return (F.sym("E"), F.sym("P"), F.sym("Q")) if d.endswith("getEPQ") else F.sym("Astate")
+        return NotImplemented
+
+    def nosize(node, op, L, R, ev):
+        r = _size_cmp("ksize")(node, op, L, R, ev)
+        return None if r is None else (not r)
+    Sem01(ctx, init, call=call1, truth={"h": True, "ksize": False}, cmp=nosize, inline=inl0, env={"h": F.sym("h"), "order": F.sym("order"), "self.ksize": F.sym("ksize")})
+    ctx.check(not asked, "SolveExp2.__init__: with no dynamic equations (ksize = 0) neither the state matrix nor its exponential is built", asked[0] if asked else init)
     # ---- tsolve on a generic history
     NT = 4
     f = tuple(F.sym(f"f{k}") for k in range(NT))
